@@ -458,7 +458,13 @@ func Timeout[T any](duration time.Duration) func(Observable[T]) Observable[T] {
 						timer.Stop()
 						destination.NextWithContext(ctx, value)
 						// @TODO: what happens if the above line is too slow?
-						timer.Reset(duration)
+
+						// Downstream may have completed or unsubscribed inside the notification: the
+						// teardown has stopped the timer, do not arm it again.
+						if !destination.IsClosed() {
+							timer.Reset(duration)
+						}
+
 						lastCtx.Store(ctx)
 					},
 					func(ctx context.Context, err error) {
